@@ -130,6 +130,13 @@ class Models(object):
             return tm.add(self.len_of(ev, v.a[0]), tm.ONE)
         if v.op == "str":
             return tm.num(len(v.a[0].encode("utf-8")))
+        if v.op == "collect" and isinstance(v.a[0], T):
+            # a comprehension is as long as what it maps over
+            base = v.a[0]
+            while base.op == "map":
+                base = base.a[0]
+            if _is_range0(base):
+                return base.a[0].a[3]
         return mk("len", v)
 
     def index_value(self, ev, v, idx):
@@ -141,6 +148,12 @@ class Models(object):
             return mk("subrange", v, idx)
         if v.op == "emap":
             return self.map_index(ev, v, idx)
+        if v.op == "setidx" and v.a[1] is idx:
+            return v.a[2]                 # the element just written at this very index
+        if v.op == "collect" and v.a[0].op == "map" and _is_range0(v.a[0].a[0]) and isinstance(v.a[0].a[1], T) \
+                and v.a[0].a[1].op == "lam" and idx.op not in ("adt",):
+            # element i of the comprehension (0..n).map(f).collect() is f(i)  (i < n is the bounds obligation of the read)
+            return tm.apply_lam(v.a[0].a[1], [idx])
         if idx.op == "position_val" and idx.a[0].op == "iter":
             # v[v0.iter().position(p)] where v is v0 after updates of that very element: the first element of v0
             # satisfying p, updated (same terms as iter().find(p) / iter_mut().find(p))
@@ -167,6 +180,8 @@ class Models(object):
         return None, None
 
     def set_index(self, ev, v, idx, new):
+        if v.op == "setidx" and v.a[1] is idx:
+            return mk("setidx", v.a[0], idx, new)       # a second write to the same element replaces the first
         if idx.op == "position_val" and idx.a[0].op == "iter":
             base, fs = self._same_first(v, idx)
             if base is not None:
@@ -863,9 +878,15 @@ class Models(object):
                 ev.pc = saved
         cl.equiv = _equiv
         finals = {}
+        pw_finals = self._pointwise_range(ev, src, elem, cells, state_for, pre, post) if live and cells else None
         for c in cells:
+            if pw_finals is not None:
+                finals[c] = pw_finals[c]
+                continue
             nxt = post.cells[c] if live else state_for[c]
             finals[c] = cl.rebuild(state_for[c], nxt)
+        if pw_finals is not None:
+            cl.kinds.append(("pointwise-index", None))
         # paths that leave the loop by `break`: what they wrote reaches the code after the loop
         brks = list(ctx.breaks) if isinstance(ctx, LoopCtx) else []
         if brks:
@@ -952,6 +973,40 @@ class Models(object):
                 ev.write(mut_place, mk("map_inplace", coll, l, uid))
         return tm.UNIT
 
+    def _pointwise_range(self, ev, src, elem, cells, state_for, pre, post):
+        """`for i in 0..n` whose every loop-carried value is a vector written only at position i (v[i] = e, or pushed
+        once per iteration into an empty vector) with e reading the carried vectors only at position i: the steps are
+        independent, and each vector ends as the comprehension (0..n).map(|i| e).collect()."""
+        if not _is_range0(src):
+            return None
+        n = src.a[0].a[3]
+        syms = {}
+        for c in cells:
+            st = state_for[c]
+            if not (isinstance(st, T) and st.op == "sym"):
+                return None
+            syms[st] = c
+        allsyms = frozenset(syms)
+        sub = dict((mk("index", sj, elem), self.index_value(ev, pre.cells[cj], elem)) for sj, cj in syms.items())
+        out = {}
+        for c in cells:
+            s_, nxt, init = state_for[c], post.cells.get(c), pre.cells[c]
+            if nxt is None:
+                return None
+            if nxt.op == "setidx" and nxt.a[0] is s_ and nxt.a[1] is elem:
+                e = nxt.a[2]
+                if self.len_of(ev, init) is not n:
+                    return None
+            elif nxt.op == "push" and nxt.a[0] is s_ and init.op == "seq" and not init.a:
+                e = nxt.a[1]
+            else:
+                return None
+            e2 = tm.subst(e, sub)
+            if tm.free_syms(e2) & allsyms:
+                return None
+            out[c] = mk("collect", mk("map", src, tm.lam([elem], e2)))
+        return out
+
     # ------------------------------------------------------------------ dispatch
     def local_override(self, ev, fty, body):
         mac = body.get("mac")
@@ -1032,6 +1087,12 @@ class Models(object):
     def _register(self):
         from . import stdmodels
         stdmodels.register(self)
+
+
+def _is_range0(it):
+    """iter(0..n)"""
+    return it.op == "iter" and it.a[0].op == "adt" and it.a[0].a[0] == "Range" and len(it.a[0].a) == 4 \
+        and it.a[0].a[2] is tm.ZERO
 
 
 def _let_fields(x):
